@@ -167,7 +167,7 @@ def check_case(acc, E, case, custom=False):
 def universe(tier, seed, shard, nshards):
     A = univ.alphabet(univ.BASE3, seed)
     thorough = tier == 'thorough'
-    sers = univ.series(A, 1, 3)
+    sers = univ.series(A, 1, 4 if thorough else 3)
     idx = 0
     for s1 in sers:
         for s2 in sers:
@@ -267,7 +267,7 @@ def run(ctx):
              '(steps, band, max_step, relaxed corners) and its accumulated cost must equal the reference distance and the reported distance; '
              'non-trivial = more than one admissible path and penalty, psi or band active',
         bounds={'alphabet': list(univ.alphabet(univ.BASE3, ctx.seed)),
-                'U1': 'all pairs len 1..3 x window{None,1,2} x penalty{None,.5,2} x max_step{None, 2|a| (separates squared from unsquared comparisons)} x inner x 11 psi forms; custom start from every finite cell',
+                'U1': 'all pairs len 1..3 (1..4 in thorough) x window{None,1,2} x penalty{None,.5,2} x max_step{None, 2|a| (separates squared from unsquared comparisons)} x inner x 11 psi forms; custom start from every finite cell',
                 'U3': 'all shapes up to %d x every window x 9 psi forms x catalogue values' % (6 if ctx.thorough else 5), 'U4': 'ndim 2, len 1..2', 'U5': 'long thin bands: every shape up to %s with max >= 7, windows %s, %d psi forms' % (('18x18', '1..5', 13) if ctx.thorough else ('12x12', '1..3', 6))},
         assumptions=['engines may return different optimal paths: no path equality is demanded', 'cases without any admissible path (reference inf) are not judged'],
         t0=ctx.t0)
